@@ -45,9 +45,14 @@ type c21State struct {
 	sumSize, sumTS   int64     // the implementation's counters (may disagree with a recount: that is a violation)
 	maxSize, maxTTL  int64
 	now              uint32
-	dirty            bool      // version != lastSavedVersion
+	dirty            bool      // the implementation's flag version != lastSavedVersion, read from the real object after every step and put back by c21Build
+	refDirty         bool      // reference: a string was inserted since the last Save that returned (true, nil) / the last reload
 	file             []byte    // bytes of the saved file (nil = never saved)
-	saved            []c21Item // reference: contents at the last Save that reported true
+	saved            []c21Item // reference: contents at the last Save that reported true (after a reload of a damaged file: what it loaded to)
+	faults           int       // storage faults injected so far in this history (bounded by c21Search.faultBudget)
+	damaged          bool      // a Save failed since the last Save that reported true: the file is one of its crash images
+	outstanding      bool      // a Save of this cache object failed and none has reported true since (a reload starts a new object)
+	alts             [][]c21Item // contents of the cache at each failed Save since then: a damaged file may hold one of them instead of saved
 	hist             []string
 	k                string
 	evicted          bool // the step into this state went through the eviction path (statistics only)
@@ -72,6 +77,19 @@ func (s *c21State) computeKey() string {
 	}
 	for _, it := range s.saved {
 		fmt.Fprintf(&b, "%s=%d@%d,", it.k, it.v, int64(s.now)-int64(it.ts))
+	}
+	fmt.Fprintf(&b, "|%v,%d,%v,%v", s.refDirty, s.faults, s.damaged, s.outstanding)
+	if s.damaged {
+		// Without a failed Save the file is a function of saved (Save writes in sorted order), and shifting all times is
+		// a symmetry. A crash image of a failed Save is not: it is kept literally (its absolute access times included, so
+		// damaged states at different clock values stay apart - more states, never a wrong merge).
+		for _, a := range s.alts {
+			b.WriteString("|alt:")
+			for _, it := range a {
+				fmt.Fprintf(&b, "%s=%d@%d,", it.k, it.v, int64(s.now)-int64(it.ts))
+			}
+		}
+		fmt.Fprintf(&b, "|file:%x", s.file)
 	}
 	return b.String()
 }
@@ -104,7 +122,8 @@ func c21Build(s *c21State, order []int, store *data_model.VerifC21Reader) *Mappi
 // observed afterwards (GetValue with accessTS 0, Stats, reading the map).
 func (se *c21Search) c21Load(file []byte) (*MappingsCache, error) {
 	if v, ok := se.loaded.Load(string(file)); ok {
-		return v.(*MappingsCache), nil
+		l := v.(c21Loaded)
+		return l.c, l.err
 	}
 	// the same steps as LoadMappingsCacheSlice, on a recycled storage object
 	store := c21Stores.Get().(*data_model.VerifC21Reader)
@@ -115,11 +134,26 @@ func (se *c21Search) c21Load(file []byte) (*MappingsCache, error) {
 	c.storage = nil // the storage object goes back to the pool; the loaded cache is only observed
 	c.deterministic = true
 	se.loads.Add(1)
-	if err == nil {
-		se.loaded.Store(string(file), c)
-	}
+	se.loaded.Store(string(file), c21Loaded{c, err})
 	return c, err
 }
+
+type c21Loaded struct {
+	c   *MappingsCache
+	err error
+}
+
+// c21OneOf: got equals one of the candidate contents (access times included).
+func c21OneOf(got []c21Item, cands ...[]c21Item) bool {
+	for _, c := range cands {
+		if fmt.Sprint(got) == fmt.Sprint(c) {
+			return true
+		}
+	}
+	return false
+}
+
+var c21ErrStorage = fmt.Errorf("c21: injected storage error")
 
 func c21Snapshot(c *MappingsCache) []c21Item {
 	var out []c21Item
@@ -140,6 +174,8 @@ type c21Op struct {
 	size   int64
 	ttl    int64
 	ordDep bool
+	post   bool // member of the sub-alphabet that continues a history after an injected storage fault in the quick tier
+	frac   int // c21SaveFault: how much of the failing storage call is applied before it reports the error: 0 nothing, 1 half (WriteAt only), 2 all
 }
 
 const (
@@ -151,6 +187,7 @@ const (
 	c21Tick
 	c21Save
 	c21Reload
+	c21SaveFault // Save during which the n-th storage call (WriteAt/Truncate, counted together) reports an error
 )
 
 func c21Ops(keys []string) []c21Op {
@@ -186,6 +223,20 @@ func c21Ops(keys []string) []c21Op {
 	}
 	ops = append(ops, c21Op{name: "clock+1", kind: c21Tick, n: 1}, c21Op{name: "clock+3", kind: c21Tick, n: 3})
 	ops = append(ops, c21Op{name: "save", kind: c21Save}, c21Op{name: "reload", kind: c21Reload})
+	// storage fault alphabet: the k-th storage call of a Save fails, for every k a Save of this key universe can make
+	// (one chunk: WriteAt then Truncate; an empty cache: Truncate only), with nothing / half / all of the call applied
+	for k := 1; k <= 2; k++ {
+		for frac, what := range []string{"nothing applied", "half written", "fully applied"} {
+			ops = append(ops, c21Op{name: fmt.Sprintf("save!storage-call#%d-fails(%s)", k, what), kind: c21SaveFault, n: k, frac: frac})
+		}
+	}
+	// quick tier: after an injected fault the history continues over the operations that decide what the fault did
+	// (Save, reload, a new string per key, expiry, time; further faults while the budget lasts); thorough: all of them
+	for i := range ops {
+		o := &ops[i]
+		o.post = o.kind == c21Save || o.kind == c21Reload || o.kind == c21SaveFault || (o.kind == c21Add && len(o.pairs) == 1 && o.pairs[0].Value%10 == 1) ||
+			(o.kind == c21Remove && o.n == 100) || (o.kind == c21Tick && o.n == 1)
+	}
 	return ops
 }
 
@@ -207,7 +258,12 @@ type c21Search struct {
 	nontriv  atomic.Int64
 	evicting atomic.Int64
 	loads    atomic.Int64
-	loaded   sync.Map // file bytes + configuration -> loaded cache (read-only afterwards)
+	loaded   sync.Map // file bytes -> c21Loaded (read-only afterwards)
+	depth       int
+	postOnly    bool // after a fault only the operations marked post continue the history (quick tier)
+	faultBudget int   // storage faults per history
+	faultSaves  atomic.Int64
+	retrySaves  atomic.Int64 // healthy Saves executed while a failed Save was outstanding
 }
 
 func c21Perms(n int) [][]int {
@@ -281,7 +337,7 @@ func (se *c21Search) c21Invariants(c *MappingsCache, s *c21State, opName string)
 // accepted=false means the runtime did not iterate the map in the intended order (retry).
 func (se *c21Search) c21Apply(s *c21State, op *c21Op, order []int, expired map[string]bool) (next *c21State, accepted bool, sig, desc string, allVisited bool) {
 	var store *data_model.VerifC21Reader
-	if op.kind == c21Save && s.dirty { // a Save with nothing new returns before it touches the storage
+	if (op.kind == c21Save || op.kind == c21SaveFault) && s.dirty { // a Save with nothing new returns before it touches the storage
 		store = c21Stores.Get().(*data_model.VerifC21Reader)
 		defer c21Stores.Put(store)
 	}
@@ -293,7 +349,8 @@ func (se *c21Search) c21Apply(s *c21State, op *c21Op, order []int, expired map[s
 		preSize += elementSizeMem(it.k)
 	}
 	now := s.now
-	ns := &c21State{maxSize: s.maxSize, maxTTL: s.maxTTL, now: s.now, dirty: s.dirty, file: s.file, saved: s.saved}
+	ns := &c21State{maxSize: s.maxSize, maxTTL: s.maxTTL, now: s.now, dirty: s.dirty, file: s.file, saved: s.saved,
+		refDirty: s.refDirty, faults: s.faults, damaged: s.damaged, outstanding: s.outstanding, alts: s.alts}
 	accepted = true
 	evicted := false
 	visited := func() map[string]bool {
@@ -365,15 +422,66 @@ func (se *c21Search) c21Apply(s *c21State, op *c21Op, order []int, expired map[s
 		ns.maxSize, ns.maxTTL = op.size, op.ttl
 	case c21Tick:
 		ns.now = s.now + uint32(op.n)
-	case c21Save:
-		ok, err := c.Save()
-		if err != nil {
-			return nil, true, "C21:cache-save-error", fmt.Sprintf("Save failed: %v", err), false
+	case c21Save, c21SaveFault:
+		hit, skip := false, false
+		if op.kind == c21SaveFault {
+			// the n-th storage call of this Save reports an error after applying nothing / half / all of what was asked
+			calls := 0
+			st := c.storage
+			origW, origT := st.WriteAt, st.Truncate
+			st.WriteAt = func(off int64, data []byte) error {
+				if calls++; calls != op.n {
+					return origW(off, data)
+				}
+				hit = true
+				if n := len(data) * op.frac / 2; n > 0 {
+					_ = origW(off, data[:n])
+				}
+				return c21ErrStorage
+			}
+			st.Truncate = func(off int64) error {
+				if calls++; calls != op.n {
+					return origT(off)
+				}
+				if op.frac == 1 { // there is no half-applied truncate
+					skip = true
+					return origT(off)
+				}
+				hit = true
+				if op.frac == 2 {
+					_ = origT(off)
+				}
+				return c21ErrStorage
+			}
 		}
-		if ok {
+		ok, err := c.Save()
+		if op.kind == c21SaveFault {
+			if !hit || skip {
+				return nil, true, "", "", false // this Save makes fewer storage calls: the fault is not applicable here
+			}
+			ns.faults = s.faults + 1
+			se.faultSaves.Add(1)
+		} else if s.damaged {
+			se.retrySaves.Add(1)
+		}
+		if err != nil {
+			if !hit {
+				return nil, true, "C21:cache-save-error", fmt.Sprintf("Save failed: %v", err), false
+			}
+			// A Save that reports an error promises nothing about the file except what the statement says about
+			// damaged files: it loads to nothing, to the previous saved contents or to the contents being saved
+			// (a prefix of the chunks of one generation; one chunk here), never to anything else.
+			ns.file = append([]byte{}, store.Bytes()...)
+			ns.damaged, ns.outstanding = true, true
+			ns.alts = append(append([][]c21Item(nil), s.alts...), c21Snapshot(c))
+			l, _ := se.c21Load(ns.file)
+			if got := c21Snapshot(l); !c21OneOf(got, append([][]c21Item{nil, s.saved}, ns.alts...)...) {
+				return nil, true, "C21:cache-file-after-failed-save-loads-other-contents", fmt.Sprintf("after a failed Save the file loads to %v; saved before: %v, being saved: %v", got, s.saved, ns.alts), false
+			}
+		} else if ok {
 			ns.file = append([]byte{}, store.Bytes()...)
 			ns.saved = c21Snapshot(c)
-			ns.dirty = false
+			ns.refDirty, ns.damaged, ns.outstanding, ns.alts = false, false, false, nil
 			// the file must load to exactly the contents that were saved
 			l, lerr := se.c21Load(ns.file)
 			got := c21Snapshot(l)
@@ -382,24 +490,32 @@ func (se *c21Search) c21Apply(s *c21State, op *c21Op, order []int, expired map[s
 			}
 		} else if store != nil && string(store.Bytes()) != string(s.file) {
 			return nil, true, "C21:cache-save-false-but-file-changed", "Save reported false but the file changed", false
-		} else if s.dirty {
+		} else if s.dirty || s.refDirty {
 			return nil, true, "C21:cache-save-skipped", "Save reported false although values were added since the last save", false
+		} else if s.outstanding {
+			return nil, true, "C21:cache-save-skipped", "Save reported (false, nil) = nothing to do, although the last Save failed and none has succeeded since", false
 		}
 	case c21Reload:
 		var lerr error
 		c, lerr = se.c21Load(s.file)
 		got := c21Snapshot(c)
-		if lerr != nil || fmt.Sprint(got) != fmt.Sprint(s.saved) {
-			return nil, true, "C21:cache-reload-differs", fmt.Sprintf("reload gives %v (error %v), the last successful Save stored %v", got, lerr, s.saved), false
+		if !s.damaged {
+			if lerr != nil || fmt.Sprint(got) != fmt.Sprint(s.saved) {
+				return nil, true, "C21:cache-reload-differs", fmt.Sprintf("reload gives %v (error %v), the last successful Save stored %v", got, lerr, s.saved), false
+			}
+		} else {
+			// the file is a crash image of a failed Save: an error is allowed, the contents must be nothing or one generation
+			if !c21OneOf(got, append([][]c21Item{nil, s.saved}, s.alts...)...) {
+				return nil, true, "C21:cache-reload-after-failed-save-differs", fmt.Sprintf("reload gives %v (error %v); last successful Save stored %v, failed Saves were storing %v", got, lerr, s.saved, s.alts), false
+			}
+			ns.saved, ns.alts = got, nil // the file is unchanged: every later reload gives the same (or, not told apart here, nothing)
 		}
-		ns.dirty = false
+		ns.refDirty, ns.outstanding = false, false
 	}
 	ns.items = c21Snapshot(c)
 	ns.evicted = evicted
 	ns.sumSize, ns.sumTS = c.sumSize, c.sumTS
-	if op.kind != c21Reload && c.version != c.lastSavedVersion {
-		ns.dirty = true
-	}
+	ns.dirty = op.kind != c21Reload && c.version != c.lastSavedVersion
 	// transition relation: values never change, strings only appear through a valid add of exactly that pair
 	var postSize int64
 	added := 0
@@ -427,6 +543,9 @@ func (se *c21Search) c21Apply(s *c21State, op *c21Op, order []int, expired map[s
 		}
 		added++
 	}
+	if added > 0 {
+		ns.refDirty = true
+	}
 	if op.kind != c21Add && op.kind != c21Remove && op.kind != c21Reload && len(ns.items) != len(s.items) {
 		return nil, true, "C21:cache-lost-entries", fmt.Sprintf("%d entries before, %d after an operation that does not evict", len(s.items), len(ns.items)), false
 	}
@@ -447,6 +566,15 @@ func (se *c21Search) c21Expand(s *c21State, op *c21Op) (succ []*c21State) {
 	}
 	orders := [][]int{ident}
 	var expired map[string]bool
+	if s.faults > 0 && se.postOnly && !op.post {
+		return nil
+	}
+	if op.kind == c21SaveFault && (!s.dirty || s.faults >= se.faultBudget || len(s.hist)+1 >= se.depth) {
+		// a Save with nothing new makes no storage call; the fault budget of this history is used up; a fault in the
+		// very last operation of a history has no continuation to be judged by (its crash image is the same as at
+		// earlier positions)
+		return nil
+	}
 	if op.ordDep && n >= 2 {
 		orders = c21Perms(n)
 		if op.kind == c21Add {
@@ -497,6 +625,9 @@ func (se *c21Search) c21Expand(s *c21State, op *c21Op) (succ []*c21State) {
 		if !ok {
 			se.rep.Infra(fmt.Sprintf("c21: the runtime never iterated the map in insertion order %v (rotation model of small maps does not hold)", ord))
 			return nil
+		}
+		if ns == nil && sig == "" {
+			continue // operation not applicable in this state
 		}
 		se.execs.Add(1)
 		if ns != nil && ns.evicted {
@@ -572,19 +703,24 @@ func TestVerifC21(t *testing.T) {
 	depth := mc.Pick(5, 7)
 	rep.Rule = "mapping cache: explicit-state BFS (value states, one fresh real MappingsCache per executed operation) over add/marker add/batch add/get/getBytes(with the caller overwriting its buffer afterwards)/removeByTTL/setSizeTTL/clock/save/reload with 4 keys of different sizes; " +
 		"every order in which the code can visit the map when it picks eviction candidates is executed (one cache per permutation of the keys); non-trivial = (state, operation) pairs with more than one distinct successor, i.e. the eviction outcome depends on the map order"
+	faultBudget := mc.Pick(1, 2)
 	rep.Bounds["cache_depth"] = depth
+	rep.Bounds["cache_storage_faults_per_history"] = fmt.Sprintf("%d, at any position but the last", faultBudget)
+	rep.Bounds["cache_operations_after_a_fault"] = mc.Pick("save, reload, add(k,v) per key, removeByTTL(100), clock+1, further faulted saves", "all")
 	rep.Bounds["cache_keys"] = "a/bb/cccc/dddddddd and aaaaaaaa/bbbb/cc/d (sizes 33,34,37,42 in both orders of the tie-break)"
 	rep.Bounds["cache_configs"] = "maxSize 70/112/1000 x maxTTL 0/2"
 	rep.Assume("Go map iteration visits a small map's slots in insertion order starting at a random offset (checked by a self-test at start); all n! insertion orders are executed, which covers every visiting order")
 	rep.Assume("MappingsCache.deterministic=true (the package's own test switch): entries with equal access time are evicted in key order; other tie-breaks are covered by the second key family with reversed sizes")
 	rep.Assume("one AddValues call never carries the same string twice (the aggregator builds the list from a map); sequential calls only, concurrency of GetValue with writers is outside this check")
 	total := struct{ states, transitions int }{}
+	c21LargeSaves(t, rep)
+	rep.Bounds["cache_large_saves"] = "30 strings of 50 KB (3 chunks + truncate) over no / a shorter / a longer older file; every storage call of the Save fails with nothing/half/all applied; then Save | add+Save on a healthy disk"
 	for fam, keys := range [][]string{{"a", "bb", "cccc", "dddddddd"}, {"aaaaaaaa", "bbbb", "cc", "d"}} {
 		if err := c21SelfTest(keys); err != nil {
 			rep.Infra("c21: " + err.Error())
 			return
 		}
-		se := &c21Search{rep: rep, keys: keys}
+		se := &c21Search{rep: rep, keys: keys, faultBudget: faultBudget, depth: depth, postOnly: !mc.Thorough()}
 		ops := c21Ops(keys)
 		init := &c21State{maxSize: 1000, maxTTL: 0, now: 1000}
 		seen := map[string]bool{init.key(): true}
@@ -635,10 +771,232 @@ func TestVerifC21(t *testing.T) {
 			rep.Sample(map[string]any{"part": "cache", "history": strings.Join(frontier[i*len(frontier)/2].hist, " ")})
 		}
 		rep.Parts[fmt.Sprintf("cache_family_%d", fam)] = map[string]any{"keys": keys, "states": len(seen), "transitions": transitions, "depth_completed": done, "per_level_new_states": levels,
-			"executions": se.execs.Load(), "order_dependent_expansions": se.ordRuns.Load(), "expansions_with_several_outcomes": se.nontriv.Load(), "executions_that_evicted": se.evicting.Load()}
+			"executions": se.execs.Load(), "saves_with_injected_storage_fault": se.faultSaves.Load(), "healthy_saves_after_a_failed_save": se.retrySaves.Load(), "order_dependent_expansions": se.ordRuns.Load(), "expansions_with_several_outcomes": se.nontriv.Load(), "executions_that_evicted": se.evicting.Load()}
 		rep.AddCounts(se.execs.Load(), int64(transitions), int64(len(seen)), se.nontriv.Load())
 		total.states += len(seen)
 		total.transitions += transitions
 		t.Logf("C21 cache family %v: states=%d transitions=%d executions=%d levels=%v several-outcomes=%d evicting=%d retries=%d", keys, len(seen), transitions, se.execs.Load(), levels, se.nontriv.Load(), se.evicting.Load(), se.retries.Load())
 	}
+}
+
+// ---- multi-chunk Saves with a failing storage call ----
+//
+// The BFS above only makes one-chunk files (a Save is WriteAt + Truncate). Here the cache holds 30 strings of 50 KB, so a
+// Save makes three WriteAt calls (FinishItem flushes a chunk at 512 KB) and a Truncate. For every older generation of the
+// file (none / a shorter two-chunk file / a longer four-chunk file), for every storage call k of the Save and every applied part
+// (nothing, half, all) that call fails; then, on the same real object and a healthy disk, every continuation of
+// {Save | add one more string, Save} runs. Oracle: the crash image loads to a prefix (in save order) of the old or of the
+// new generation; the next Save reports (true, nil) - strings were inserted since the last successful one - and its file
+// loads to exactly the contents of the cache.
+
+func c21BigKey(i int) string { return fmt.Sprintf("%03d", i) + strings.Repeat(string(rune('a'+i%26)), 50000) }
+
+func c21BigAdd(c *MappingsCache, now uint32, from, to int) {
+	var pairs []MappingPair
+	for i := from; i < to; i++ {
+		pairs = append(pairs, MappingPair{Str: c21BigKey(i), Value: int32(100 + i)})
+	}
+	c.AddValues(now, pairs)
+}
+
+// c21SaveOrder sorts the way Save(deterministic) writes: by access time, then key.
+func c21SaveOrder(items []c21Item) []c21Item {
+	out := append([]c21Item(nil), items...)
+	sort.Slice(out, func(i, j int) bool {
+		if out[i].ts != out[j].ts {
+			return out[i].ts < out[j].ts
+		}
+		return out[i].k < out[j].k
+	})
+	return out
+}
+
+func c21Short(items []c21Item) string {
+	var b strings.Builder
+	for _, it := range items {
+		k := it.k
+		if len(k) > 4 {
+			k = k[:4] + "..."
+		}
+		fmt.Fprintf(&b, "%s=%d@%d ", k, it.v, it.ts)
+	}
+	return fmt.Sprintf("%d items [%s]", len(items), strings.TrimSpace(b.String()))
+}
+
+func c21IsPrefix(got, gen []c21Item) bool {
+	g, w := c21SaveOrder(got), c21SaveOrder(gen)
+	if len(g) > len(w) {
+		return false
+	}
+	for i := range g {
+		if g[i] != w[i] {
+			return false
+		}
+	}
+	return true
+}
+
+func c21LoadCopy(file []byte) ([]c21Item, error) {
+	cp := append([]byte(nil), file...)
+	l, err := LoadMappingsCacheSlice(&cp, 1<<40)
+	return c21Snapshot(l), err
+}
+
+func c21LargeSaves(t *testing.T, rep *mc.Report) {
+	type built struct {
+		c   *MappingsCache
+		fp  *[]byte
+		old []c21Item // contents at the last healthy Save (nil: no file)
+	}
+	build := func(old int) (*built, error) {
+		fp := new([]byte)
+		c, err := LoadMappingsCacheSlice(fp, 1<<40)
+		if err != nil {
+			return nil, err
+		}
+		c.deterministic = true
+		b := &built{c: c, fp: fp}
+		switch old {
+		case 1: // a shorter older file: 12 strings, two chunks
+			c21BigAdd(c, 1000, 0, 12)
+			if ok, err := c.Save(); !ok || err != nil {
+				return nil, fmt.Errorf("healthy Save: %v %v", ok, err)
+			}
+			b.old = c21Snapshot(c)
+			c21BigAdd(c, 1001, 12, 30)
+		case 2: // a longer older file: 40 strings, four chunks; 15 of them expire, 5 new ones come
+			c21BigAdd(c, 1000, 0, 15)
+			c21BigAdd(c, 1010, 15, 40)
+			if ok, err := c.Save(); !ok || err != nil {
+				return nil, fmt.Errorf("healthy Save: %v %v", ok, err)
+			}
+			b.old = c21Snapshot(c)
+			c.SetSizeTTL(1<<40, 5)
+			c.RemoveByTTL(1000, 1012)
+			c21BigAdd(c, 1012, 40, 45)
+		default:
+			c21BigAdd(c, 1000, 0, 30)
+		}
+		if n := len(c.cache); n != 30 {
+			return nil, fmt.Errorf("large cache generation %d holds %d strings, 30 intended", old, n)
+		}
+		return b, nil
+	}
+	var execs, images, nontriv int64
+	for old := 0; old < 3; old++ {
+		// how many storage calls does the Save make? (asked from the real code on a healthy disk)
+		b, err := build(old)
+		if err != nil {
+			rep.Infra("c21 large: " + err.Error())
+			return
+		}
+		calls := 0
+		st := b.c.storage
+		origW, origT := st.WriteAt, st.Truncate
+		st.WriteAt = func(off int64, d []byte) error { calls++; return origW(off, d) }
+		st.Truncate = func(off int64) error { calls++; return origT(off) }
+		if ok, err := b.c.Save(); !ok || err != nil {
+			rep.Infra(fmt.Sprintf("c21 large: healthy Save: %v %v", ok, err))
+			return
+		}
+		if calls < 4 {
+			rep.Infra(fmt.Sprintf("c21 large: the Save made %d storage calls, at least 4 intended (three chunks and the truncate)", calls))
+			return
+		}
+		for k := 1; k <= calls; k++ {
+			for frac := 0; frac < 3; frac++ {
+				for cont := 0; cont < 2; cont++ {
+					if mc.Expired() {
+						rep.Cap("wall_budget(large saves)")
+						return
+					}
+					b, err := build(old)
+					if err != nil {
+						rep.Infra("c21 large: " + err.Error())
+						return
+					}
+					c := b.c
+					st := c.storage
+					origW, origT := st.WriteAt, st.Truncate
+					n, hit, skip := 0, false, false
+					st.WriteAt = func(off int64, d []byte) error {
+						if n++; n != k {
+							return origW(off, d)
+						}
+						hit = true
+						if m := len(d) * frac / 2; m > 0 {
+							_ = origW(off, d[:m])
+						}
+						return c21ErrStorage
+					}
+					st.Truncate = func(off int64) error {
+						if n++; n != k {
+							return origT(off)
+						}
+						if frac == 1 {
+							skip = true
+							return origT(off)
+						}
+						hit = true
+						if frac == 2 {
+							_ = origT(off)
+						}
+						return c21ErrStorage
+					}
+					hist := []string{fmt.Sprintf("older file: %s", []string{"none", "12 strings", "40 strings of which 15 expired"}[old]), "cache holds 30 strings of 50 KB",
+						fmt.Sprintf("save!storage-call#%d-fails(%s)", k, []string{"nothing applied", "half written", "fully applied"}[frac])}
+					viol := func(sig, desc string) {
+						rep.Violate(sig, desc+" | history: "+strings.Join(hist, "; "), map[string]any{"history": hist})
+					}
+					ok, err := c.Save()
+					if skip || !hit {
+						continue
+					}
+					execs++
+					cur := c21Snapshot(c)
+					if err == nil {
+						got, lerr := c21LoadCopy(*b.fp)
+						if !ok || lerr != nil || fmt.Sprint(got) != fmt.Sprint(cur) {
+							viol("C21:cache-saved-file-differs", fmt.Sprintf("Save returned (%v, nil) although a storage call failed; the file loads to %s (error %v), the cache holds %s", ok, c21Short(got), lerr, c21Short(cur)))
+						}
+						continue
+					}
+					if cont == 0 {
+						images++
+						got, _ := c21LoadCopy(*b.fp)
+						if !c21IsPrefix(got, b.old) && !c21IsPrefix(got, cur) {
+							viol("C21:cache-file-after-failed-save-loads-other-contents", fmt.Sprintf("after the failed Save the file loads to %s: neither a prefix of the old generation %s nor of the new %s", c21Short(got), c21Short(b.old), c21Short(cur)))
+						}
+						if len(got) != 0 && len(got) != len(cur) && len(got) != len(b.old) {
+							nontriv++ // a proper prefix of a generation survived
+						}
+					}
+					// healthy disk from here on
+					st.WriteAt, st.Truncate = origW, origT
+					if cont == 1 {
+						c21BigAdd(c, 1013, 50, 51)
+						hist = append(hist, "add(one more string)")
+						cur = c21Snapshot(c)
+					}
+					hist = append(hist, "save")
+					ok2, err2 := c.Save()
+					execs++
+					if err2 != nil {
+						viol("C21:cache-save-error", fmt.Sprintf("Save on a healthy disk after a failed one: %v", err2))
+						continue
+					}
+					if !ok2 {
+						viol("C21:cache-save-skipped", "Save reported (false, nil) = nothing to do, although the last Save failed and none has succeeded since")
+					}
+					got, lerr := c21LoadCopy(*b.fp)
+					if lerr != nil || fmt.Sprint(got) != fmt.Sprint(cur) {
+						viol("C21:cache-reload-differs", fmt.Sprintf("after a Save that returned (%v, nil) the file loads to %s (error %v), the cache holds %s", ok2, c21Short(got), lerr, c21Short(cur)))
+					}
+				}
+			}
+		}
+	}
+	rep.Parts["cache_large_saves"] = map[string]any{"executions": execs, "crash_images_loaded": images, "images_with_a_proper_prefix": nontriv}
+	rep.AddCounts(execs, execs, images, nontriv)
+	t.Logf("C21 large saves: executions=%d images=%d proper-prefix=%d", execs, images, nontriv)
 }
